@@ -2,6 +2,7 @@ package chainsim
 
 import (
 	"context"
+	"crypto/sha256"
 	"fmt"
 	"os"
 	"sync"
@@ -10,6 +11,7 @@ import (
 	"github.com/cometbft/cometbft/abci/types"
 	cmtcrypto "github.com/cometbft/cometbft/crypto"
 	cmtproto "github.com/cometbft/cometbft/proto/tendermint/types"
+	cmtversion "github.com/cometbft/cometbft/proto/tendermint/version"
 	cmttypes "github.com/cometbft/cometbft/types"
 
 	"github.com/oasisprotocol/oasis-core/go/common/crypto/signature"
@@ -352,11 +354,24 @@ func (r *Replica) Finalize(b *Block, between func()) *BlockResult {
 	call(func() {
 		resp := r.mux.BeginBlock(types.RequestBeginBlock{
 			Hash: b.Hash,
+			// The finalization of a block gets the block's COMPLETE header (the proposal phase
+			// only a partial one that the multiplexer builds itself): every field is filled in,
+			// the application hash with the state root this replica committed last.
 			Header: cmtproto.Header{
+				Version:            cmtversion.Consensus{Block: 11},
+				ChainID:            r.Doc.ChainID,
 				Height:             b.Height,
 				Time:               b.Time,
-				ProposerAddress:    b.Proposer,
+				LastBlockId:        cmtproto.BlockID{Hash: headerFill(b.Hash, "last-block-id"), PartSetHeader: cmtproto.PartSetHeader{Total: 1, Hash: headerFill(b.Hash, "parts")}},
+				LastCommitHash:     headerFill(b.Hash, "last-commit"),
+				DataHash:           cmttypes.Txs(txsOf(b.Txs)).Hash(),
+				ValidatorsHash:     headerFill(b.Hash, "validators"),
 				NextValidatorsHash: b.NextValHash,
+				ConsensusHash:      headerFill(b.Hash, "consensus"),
+				AppHash:            append([]byte(nil), r.AppHash...),
+				LastResultsHash:    headerFill(b.Hash, "last-results"),
+				EvidenceHash:       headerFill(b.Hash, "evidence"),
+				ProposerAddress:    b.Proposer,
 			},
 			LastCommitInfo:      b.LastCommit,
 			ByzantineValidators: b.Misbehavior,
@@ -392,4 +407,18 @@ func (r *Replica) CheckTx(tx []byte, recheck bool) types.ResponseCheckTx {
 		t = types.CheckTxType_Recheck
 	}
 	return r.mux.CheckTx(types.RequestCheckTx{Tx: tx, Type: t})
+}
+
+// headerFill derives a 32-byte stand-in for a header hash that chainsim does not compute.
+func headerFill(blockHash []byte, what string) []byte {
+	h := sha256.Sum256(append(append([]byte(nil), blockHash...), what...))
+	return h[:]
+}
+
+func txsOf(raw [][]byte) []cmttypes.Tx {
+	out := make([]cmttypes.Tx, len(raw))
+	for i, t := range raw {
+		out[i] = cmttypes.Tx(t)
+	}
+	return out
 }
